@@ -5,8 +5,10 @@
    per-condition history [ops] from the initial disposition [init];
    [global_projection] shows that every history of TrapSet API calls is such a
    history for each condition in play. *)
+From Coq Require Import Sorted.
 From Yv Require Import Common.Base C11.Model C11.Spec C11.Proofs C11.ProofsB C11.ProofsC
-  C11.ProofsD C11.ProofsE C11.ProofsF C11.ProofsG C11.ScriptModel C11.ScriptSpec C11.ScriptProofs C11.ScriptTerm C11.Examples.
+  C11.ProofsD C11.ProofsE C11.ProofsF C11.ProofsG C11.ScriptModel C11.ScriptSpec C11.ScriptProofs C11.ScriptTerm C11.Examples
+  C11.WaitModel C11.WaitSpec C11.WaitProofs C11.TrapCmd C11.TrapCmdProofs.
 
 (* every history of API operations acts on each condition as a per-condition history *)
 Theorem global_projection : forall univ gops,
@@ -298,6 +300,56 @@ Example trap_runs_nonvacuous :
   monitor false ex_tbl ex_trace false = None.
 Proof. exact (conj ex_script_ok (conj ex_script_runs ex_monitor_accepts)). Qed.
 
+(* ---- `wait` interrupted by a trapped signal (WaitModel / WaitSpec) ---------------------- *)
+(* the loop of the wait built-in (model) computes what the declarative specification says, for every trap table, target, job list and history of events *)
+Theorem wait_model_meets_spec : forall traps t js evs, wait_loop traps t js evs = wait_spec traps t js evs.
+Proof. exact wait_model_meets_spec_proof. Qed.
+
+(* whole scripts: the trace and end of the shell of the model equal those of the specification *)
+Theorem wait_script_meets_spec : forall atbl cs evs, wrun wait_loop atbl cs evs = wrun wait_spec atbl cs evs.
+Proof. exact wait_script_meets_spec_proof. Qed.
+
+(* the run-time oracle of stream D accepts the model's output for every script and history *)
+Theorem wait_oracle_sound : forall atbl cs evs, let '(e, tr) := wrun wait_loop atbl cs evs in wait_oracle atbl cs evs tr (wend_eqb e EndKilled) = None.
+Proof. exact wait_oracle_sound_proof. Qed.
+
+(* wait returns 384+sg exactly when sg is the first signal with a command trap of an event that arrives before the awaited jobs have finished, all earlier events being quiet *)
+Theorem wait_interrupted_iff : forall traps t js evs sg, w_out (wait_loop traps t js evs) = WIntr sg <-> exists q e r c js', evs = q ++ e :: r /\ forallb (quiet traps) q = true /\ scan_done t js q = inr js' /\ classify traps e = Intr sg c.
+Proof. exact wait_interrupted_iff_proof. Qed.
+
+(* ignored signals (and SIGCHLD without a command) never interrupt wait *)
+Theorem wait_quiet_never_interrupts : forall traps t js evs, forallb (quiet traps) evs = true -> forall sg, w_out (wait_loop traps t js evs) <> WIntr sg.
+Proof. exact quiet_never_interrupts_proof. Qed.
+
+(* a batch of signals is quiet exactly when all of them are ignored *)
+Theorem wait_quiet_sigs_iff : forall traps j l, quiet traps (WSigs j l) = true <-> forall sg, In sg l -> trap_of traps sg = TIgnore.
+Proof. exact quiet_sigs_iff_proof. Qed.
+
+(* after an interrupted wait the caught flags left are exactly the other command-trapped signals of the interrupting event, each once, in increasing signal number *)
+Theorem wait_interrupt_leaves_each_once_in_order : forall traps t js evs sg, w_out (wait_loop traps t js evs) = WIntr sg -> exists q e, w_used (wait_loop traps t js evs) = q ++ [e] /\ body_sig traps sg = true /\ StronglySorted N.lt (w_pend (wait_loop traps t js evs)) /\ forall x, In x (w_pend (wait_loop traps t js evs)) <-> x <> sg /\ body_sig traps x = true /\ match e with WSigs _ l => In x l | WChild _ _ => x = WCHLD end.
+Proof. exact wait_interrupt_leaves_proof. Qed.
+
+(* an interrupted wait records: the interrupting signal's action once with the $? of before the wait, then $? = 384+sg, then the actions of the signals left caught in that order, each once, $? preserved for the next command *)
+Theorem wait_interrupt_trace : forall core atbl t cs s sg js pend used rest, core (w_traps s) t (w_jobs s) (w_evs s) = (WIntr sg, js, pend, used, rest) -> wexec core atbl (WcWait t :: cs) s = wexec core atbl cs (mkW (w_traps s) (sig_status sg) js rest (rev (flat_map ev_trace used ++ act_probe atbl (w_traps s) (w_status s) sg ++ flat_map (act_probe atbl (w_traps s) (sig_status sg)) pend) ++ w_tr s)).
+Proof. exact wait_interrupt_trace_proof. Qed.
+
+(* wait uses up a prefix of the events; none is lost or reordered *)
+Theorem wait_events_in_order : forall traps t js evs, w_used (wait_loop traps t js evs) ++ w_rest (wait_loop traps t js evs) = evs.
+Proof. exact wait_used_rest_proof. Qed.
+
+(* ---- the `trap` built-in's operand loop (TrapCmd) ------------------------------------------ *)
+(* the trap built-in: if any operand after the action names no condition nothing is done; otherwise every condition operand gets exactly one set_action, in order, none skipped after a failing one, all with the same action and the interactive override *)
+Theorem trap_builtin_loop_spec : forall known inter ws, let '(act, rest) := split_action ws in ((exists w, In w rest /\ parse_cond known w = None) -> trap_builtin_ops known inter ws = []) /\ (all_conditions known rest -> ops_match known inter (chosen_action act) rest (trap_builtin_ops known inter ws)).
+Proof. exact trap_builtin_loop_spec_proof. Qed.
+
+(* exit status 0 exactly when the operands were accepted and no set_action was refused for KILL/STOP (a refusal for a signal ignored on entry is silent) *)
+Theorem trap_builtin_status_spec : forall known ws rs, trap_builtin_status known ws rs = 0%N <-> (interpret known ws = TPrintAll \/ exists a conds, interpret known ws = TSet a conds /\ Forall (fun r => r <> RErrKill /\ r <> RErrStop) rs).
+Proof. exact trap_builtin_status_spec_proof. Qed.
+
+(* a numeric first operand is a condition: all conditions named are reset to the default action *)
+Theorem trap_numeric_first_resets : forall known inter n rest, all_conditions known (WNum n :: rest) -> ops_match known inter ADefault (WNum n :: rest) (trap_builtin_ops known inter (WNum n :: rest)).
+Proof. exact trap_numeric_first_resets_proof. Qed.
+
 Print Assumptions global_projection.
 Print Assumptions disposition_inv.
 Print Assumptions disposition_inv_global.
@@ -320,3 +372,15 @@ Print Assumptions trap_runs_once_per_delivery_at_boundary_outside_known_finding.
 Print Assumptions trap_runs_once_per_delivery_at_boundary_partial.
 Print Assumptions trap_runs_once_per_delivery_at_boundary_refuted.
 Print Assumptions trap_loop_terminates.
+Print Assumptions wait_model_meets_spec.
+Print Assumptions wait_script_meets_spec.
+Print Assumptions wait_oracle_sound.
+Print Assumptions wait_interrupted_iff.
+Print Assumptions wait_quiet_never_interrupts.
+Print Assumptions wait_quiet_sigs_iff.
+Print Assumptions wait_interrupt_leaves_each_once_in_order.
+Print Assumptions wait_interrupt_trace.
+Print Assumptions wait_events_in_order.
+Print Assumptions trap_builtin_loop_spec.
+Print Assumptions trap_builtin_status_spec.
+Print Assumptions trap_numeric_first_resets.
